@@ -174,7 +174,7 @@ def rule_r4(ctx) -> RuleResult:
     # drop the leading \b of the tag_fn group: it is relative to the preceding tag name / whitespace
     a_items = [it for it in one_attr if not (it[0] is sre_c.AT)]
     b_items = [it for it in ptree if not (it[0] is sre_c.AT)]
-    cex = rx.included_in_prefix(None, None, thorough=False, items_a=a_items, items_b=b_items,
+    cex = rx.included_in_prefix(None, None, thorough=ctx.thorough, items_a=a_items, items_b=b_items,
                                 flags_a=0, flags_b=ptree.state.flags, full=True, allowed=allowed)
     st = dict(rx.included_in_prefix.last_stats)
     if cex is None:
@@ -186,7 +186,7 @@ def rule_r4(ctx) -> RuleResult:
                        "the element's attribute map differs from what was written".format(cex), pa.lineno))
     # table attributes: attr_assignment_pair must accept what parse_attrs needs, i.e. each pair it accepts is parsed in full
     pair = ctx.index.const("parser", "attr_assignment_pair")
-    cex = rx.included_in_prefix(str(pair), None, items_b=b_items, flags_b=ptree.state.flags, full=True,
+    cex = rx.included_in_prefix(str(pair), None, thorough=ctx.thorough, items_b=b_items, flags_b=ptree.state.flags, full=True,
                                 allowed=lambda ch: ch in URLSAFE or ch in "\"'")
     if cex is None:
         rr.ok("parser.attr_assignment_pair", "table attribute pairs are consumed in full by parse_attrs")
